@@ -32,6 +32,8 @@
 (*                          is being finished raises no exception (pinned) *)
 (*   "open_before_close"    a rotation opens (truncates) the next '.part'  *)
 (*                          before it closes and renames the current one   *)
+(*   "append_part"          opening does not truncate: the new output is   *)
+(*                          appended to a '.part' file left by a dead run  *)
 (***************************************************************************)
 EXTENDS Naturals, Sequences, FiniteSets, TLC
 
@@ -39,6 +41,7 @@ CONSTANTS Scenario,    \* sequence of API operations
           Named,       \* TRUE: file-name outputs ('.part' + rename); FALSE: descriptor outputs
           Compressed,  \* TRUE: outputs end with a trailer unit
           PreExisting, \* set of names whose final name already exists with old content
+          PrePart,     \* set of names whose '.part' file already exists (left by a run that died): opening truncates it
           FaultAt,     \* 0 = no fault; k = the k-th write system call fails
           Persistent,  \* TRUE: every write system call from FaultAt on fails
           WBug
@@ -76,6 +79,10 @@ Target(o) == IF ~Named \/ WBug = "write_final_name" THEN Final(o)
              ELSE Part(o)
 Old == << <<0, 0>> >>       \* content of a file that existed before (a unit of no output)
 
+(* open(path): the file is created or truncated *)
+Opened(f, p) == IF WBug = "append_part" /\ p \in DOMAIN f THEN f
+                ELSE [q \in DOMAIN f \cup {p} |-> IF q = p THEN <<>> ELSE f[q]]
+
 Units(o, n) == [k \in 1..n |-> <<o, k>>]
 Trailer(o) == <<o, 0>>
 
@@ -84,7 +91,7 @@ Complete(o, n) == Units(o, n) \o (IF Compressed THEN <<Trailer(o)>> ELSE <<>>)
 
 Init ==
     /\ pc = 1 /\ step = "begin" /\ cur = 1 /\ given = 0 /\ ubuf = <<>>
-    /\ fs = [p \in {<<"final", n>> : n \in PreExisting} |-> Old] @@ (Target(1) :> <<>>)
+    /\ fs = Opened([p \in {<<"final", n>> : n \in PreExisting} \cup (IF Named THEN {<<"part", n>> : n \in PrePart} ELSE {}) |-> Old], Target(1))
     /\ nsys = 0 /\ lost = {} /\ reported = {} /\ returned = {} /\ alive = TRUE
 
 Op == Scenario[pc]
@@ -155,7 +162,7 @@ CloseDone ==
     /\ IF Op.op = "rotate"
        THEN /\ cur' = cur + 1 /\ given' = 0
             /\ fs' = IF Named /\ WBug = "open_before_close" THEN fs            \* (deviation) it is open already
-                     ELSE [p \in DOMAIN fs \cup {Target(cur + 1)} |-> IF p = Target(cur + 1) THEN <<>> ELSE fs[p]]
+                     ELSE Opened(fs, Target(cur + 1))
        ELSE UNCHANGED <<cur, given, fs>>
     /\ pc' = pc + 1 /\ step' = "begin"
     /\ UNCHANGED <<ubuf, nsys, lost, reported, alive>>
